@@ -77,6 +77,7 @@ type env struct {
 	spills  atomic.Int64 // hook fuse.Fuser.spill
 	defMem  int
 	buildMu sync.Mutex // fuse.MemMaxBytes is read when the operator is built
+	src     *data.Source
 }
 
 // report collects what one case has to tell core.Ctx.  Cases are replayed by
@@ -132,7 +133,7 @@ func (e *env) runFlow(zctx *zed.Context, program string, vals []zed.Value, mem i
 	}
 	rctx := runtime.NewContext(ctx, zctx)
 	defer rctx.Cancel()
-	job, err := compiler.NewJob(rctx, seq, data.NewSource(storage.NewLocalEngine(), nil), nil)
+	job, err := compiler.NewJob(rctx, seq, e.src, nil)
 	if err != nil {
 		return nil, err
 	}
@@ -432,7 +433,7 @@ func (e *env) bind(r *report, zctx *zed.Context, tc *typeCase, ins []input, o *o
 }
 
 func run(c *core.Ctx) error {
-	e := &env{c: c, ctx: context.Background(), defMem: fuse.MemMaxBytes}
+	e := &env{c: c, ctx: context.Background(), defMem: fuse.MemMaxBytes, src: data.NewSource(storage.NewLocalEngine(), nil)}
 	if !verif.Enabled {
 		return errors.New("harness built without -tags verif")
 	}
@@ -544,12 +545,12 @@ var reMaxLen = regexp.MustCompile(`\n  MaxLen = \d+`)
 // exported tables.
 func (e *env) runTLC() ([]typeCase, []fuserCase, error) {
 	c := e.c
-	nshards, cfgName, timeout := 6, "FuseMerge.quick.cfg", 4*time.Minute
+	nshards, cfgName, timeout := 3, "FuseMerge.quick.cfg", 4*time.Minute
 	if !c.Quick() {
-		nshards, cfgName, timeout = 14, "FuseMerge.thorough.cfg", 18*time.Minute
+		nshards, cfgName, timeout = 8, "FuseMerge.thorough.cfg", 18*time.Minute
 	}
-	// several JVMs run side by side: keep each one's GC and JIT thread pools small
-	os.Setenv("JAVA_TOOL_OPTIONS", "-XX:ParallelGCThreads=2 -XX:CICompilerCount=2")
+	// several JVMs run side by side: keep each one's GC pool small; the runs are short, C1 code is fast enough and compiles sooner
+	os.Setenv("JAVA_TOOL_OPTIONS", "-XX:ParallelGCThreads=2 -XX:TieredStopAtLevel=1")
 	cfgBytes, err := os.ReadFile(filepath.Join(core.VerifDir, "specs", "cfg", cfgName))
 	if err != nil {
 		return nil, nil, err
